@@ -259,6 +259,11 @@ def xls_case(rng, cid, known_ok=True):
     names = []
     dn = wb["dnames"] if xtis else []
     wb["dnames"] = dn
+    XLS_BUILTIN = ["Consolidate_Area", "Auto_Open", "Auto_Close", "Extract", "Database", "Criteria", "Print_Area",
+                   "Print_Titles", "Recorder", "Data_Form", "Auto_Activate", "Auto_Deactivate", "Sheet_Title", "_FilterDatabase"]
+    dn = [("_xlnm." + rng.choice(XLS_BUILTIN)) if rng.random() < 0.25 else nm for nm in dn]
+    dn = [nm for i, nm in enumerate(dn) if nm not in dn[:i]]
+    wb["dnames"] = dn
     for nm in dn:
         rel = known_ok and rng.random() < 0.3
         def cref():
@@ -271,7 +276,9 @@ def xls_case(rng, cid, known_ok=True):
         elif kind == "A":
             x += "." + cref() + "." + cref()
         wide = 1 if (any(ord(c) > 255 for c in nm) or rng.random() < 0.3) else 0
-        names.append(":".join([hxs(nm), x, str(wide), str(rng.choice([0, 1, 0x20])), str(rng.choice([0, 65])),
+        # fBuiltin (0x20) goes with a built-in name (stored as its one-character id, MS-XLS 2.5.114)
+        flags = rng.choice([0, 1, 0x2000]) | (0x20 if nm.startswith("_xlnm.") and rng.random() < 0.9 else 0)
+        names.append(":".join([hxs(nm), x, str(wide), str(flags), str(rng.choice([0, 65])),
                                str(rng.choice([0, 1]))]))
     style = mg.xls_style_records()
     j0 = rng.choice([[], [(0x00E1, b"\xb0\x04"), (0x005C, b" " * 112)], [(0x013D, b"\x01\x00\x02\x00")]])
